@@ -113,84 +113,75 @@ theorem alloc_memory_usage (n : NodeInfo) (hw : WFNode n) (hval : Valid n) (k : 
   · exact ⟨hw.cc, hw.cn, hw.uc, hw.un⟩
   · exact (valid_congr n _ rfl rfl rfl).2 hval
 
-/-- Manager level, memory-only requests, with any number of further plugins that accept `k`
-    iff `k` is within their capacity: `Manager.Alloc` (calculation *and* commit) succeeds iff
-    `1 ≤ k ≤` the merged capacity (the minimum over all plugins, 0 if any plugin does not
-    offer the node).  The node is any stored (well-formed, validated) node. -/
-theorem manager_capacity_is_max_accepted (sched : Sched) (ex : Extras) (n : NodeInfo) (hw : WFNode n) (hval : Valid n)
-    (req0 req : Req) (hv : req0.validate = .ok req) (hb : req.cpuBind = false)
-    (k : Int) (hk1 : 1 ≤ k) (hk2 : k ≤ maxInt) :
+/-- Manager level, any request (bound included), any scheduler, with any number of further
+    plugins that accept `k` iff `k` is within their capacity: if the commit accepts what the
+    calculation produced (`hsound`: for bound requests this is the scheduler's soundness, C04;
+    for memory-only requests it is proved below), `Manager.Alloc` succeeds iff `1 ≤ k ≤` the
+    merged capacity (the minimum over all plugins, 0 if any plugin does not offer the node). -/
+theorem manager_capacity_is_max_accepted_of_sound (sched : Sched) (ex : Extras) (n : NodeInfo)
+    (req0 req : Req) (hv : req0.validate = .ok req) (k : Int) (hk1 : 1 ≤ k) (hk2 : k ≤ maxInt)
+    (hsound : ∀ ws, calculateDeploy sched n k req0 = .ok ws → ∃ n', setNodeResourceUsage n none ws true true = .ok n') :
     (alloc sched ex n k req0).isOk = true ↔ k ≤ mergedCapacity (deployCapacity sched n req) ex := by
   have hcap := capacity_is_max_accepted sched n req0 req hv k hk1 hk2
   have hnk : ¬ k < 0 := by omega
+  have hmerged : k ≤ mergedCapacity (deployCapacity sched n req) ex ↔
+      (k ≤ deployCapacity sched n req ∧ extrasAccept ex k = true) := by
+    unfold mergedCapacity
+    by_cases hall : ex.all (·.isSome) = true
+    · by_cases hpos : deployCapacity sched n req > 0
+      · simp only [hpos, hall, and_self, if_true, le_foldl_min ex _ k hall]
+      · simp only [hpos, false_and, if_false]
+        constructor
+        · intro h; omega
+        · intro h; omega
+    · have hall' : ex.all (·.isSome) = false := by simpa using hall
+      simp only [hall', Bool.false_eq_true, and_false, if_false, extrasAccept_false_of_none ex k hall']
+      constructor
+      · intro h; omega
+      · intro h; exact h.elim
+  rw [hmerged]
   unfold alloc
   simp only [hnk, if_false]
   cases hcd : calculateDeploy sched n k req0 with
   | ok ws =>
     have hle : k ≤ deployCapacity sched n req := hcap.1 (by rw [hcd]; rfl)
-    -- the workloads are `k` copies of the same memory-only resource, so the commit succeeds
-    have hws : ∃ w : WorkloadRes, w.cpuMap = [] ∧ w.numaMemory = [] ∧ ws = List.replicate k.toNat w := by
-      unfold calculateDeploy at hcd
-      rw [hv] at hcd
-      simp only [hb, Bool.not_false, if_true] at hcd
-      unfold allocByMemory at hcd
-      by_cases c1 : req.cpuRequest > ncores n * nano
-      · simp [c1] at hcd
-      · by_cases c2 : req.memRequest > 0 ∧ Int.tdiv n.available.memory req.memRequest < k
-        · simp [c1, c2] at hcd
-        · simp only [c1, c2, if_false] at hcd
-          cases hcd; exact ⟨_, rfl, rfl, rfl⟩
-    obtain ⟨w, hw1, hw2, hws⟩ := hws
-    subst hws
-    dsimp only
-    rw [alloc_memory_usage n hw hval k.toNat w hw1 hw2]
-    unfold mergedCapacity
-    by_cases hall : ex.all (·.isSome) = true
-    · have hpos : deployCapacity sched n req > 0 := by omega
-      simp only [hpos, hall, and_self, if_true, le_foldl_min ex _ k hall, hle, true_and]
-      cases extrasAccept ex k <;> simp [Outcome.isOk]
-    · have hall' : ex.all (·.isSome) = false := by simpa using hall
-      simp only [hall', Bool.false_eq_true, and_false, if_false, extrasAccept_false_of_none ex k hall']
-      simp only [Bool.not_false, if_true, Outcome.isOk]
-      constructor
-      · intro h; cases h
-      · intro h; omega
+    obtain ⟨n', hn'⟩ := hsound ws hcd
+    simp only [hn', hle, true_and]
+    cases extrasAccept ex k <;> simp [Outcome.isOk]
   | err e =>
     have hnle : ¬ k ≤ deployCapacity sched n req := fun h => by
       have := hcap.2 h; rw [hcd] at this; cases this
-    simp only [Outcome.isOk]
-    constructor
-    · intro h; cases h
-    · intro h
-      exfalso; apply hnle
-      unfold mergedCapacity at h
-      split at h
-      · rename_i hc; exact ((le_foldl_min ex _ k hc.2).1 h).1
-      · omega
+    simp [Outcome.isOk, hnle]
   | panic m =>
     have hnle : ¬ k ≤ deployCapacity sched n req := fun h => by
       have := hcap.2 h; rw [hcd] at this; cases this
-    simp only [Outcome.isOk]
-    constructor
-    · intro h; cases h
-    · intro h
-      exfalso; apply hnle
-      unfold mergedCapacity at h
-      split at h
-      · rename_i hc; exact ((le_foldl_min ex _ k hc.2).1 h).1
-      · omega
+    simp [Outcome.isOk, hnle]
   | diverge =>
     have hnle : ¬ k ≤ deployCapacity sched n req := fun h => by
       have := hcap.2 h; rw [hcd] at this; cases this
-    simp only [Outcome.isOk]
-    constructor
-    · intro h; cases h
-    · intro h
-      exfalso; apply hnle
-      unfold mergedCapacity at h
-      split at h
-      · rename_i hc; exact ((le_foldl_min ex _ k hc.2).1 h).1
-      · omega
+    simp [Outcome.isOk, hnle]
+
+/-- Manager level, memory-only requests: on any stored (well-formed, validated) node the commit
+    of a memory-only allocation cannot fail, so `Manager.Alloc` (calculation *and* commit)
+    succeeds iff `1 ≤ k ≤` the merged capacity — unconditionally. -/
+theorem manager_capacity_is_max_accepted (sched : Sched) (ex : Extras) (n : NodeInfo) (hw : WFNode n) (hval : Valid n)
+    (req0 req : Req) (hv : req0.validate = .ok req) (hb : req.cpuBind = false)
+    (k : Int) (hk1 : 1 ≤ k) (hk2 : k ≤ maxInt) :
+    (alloc sched ex n k req0).isOk = true ↔ k ≤ mergedCapacity (deployCapacity sched n req) ex := by
+  apply manager_capacity_is_max_accepted_of_sound sched ex n req0 req hv k hk1 hk2
+  intro ws hcd
+  -- the workloads are `k` copies of the same memory-only resource, so the commit succeeds
+  unfold calculateDeploy at hcd
+  rw [hv] at hcd
+  simp only [hb, Bool.not_false, if_true] at hcd
+  unfold allocByMemory at hcd
+  by_cases c1 : req.cpuRequest > ncores n * nano
+  · simp [c1] at hcd
+  · by_cases c2 : req.memRequest > 0 ∧ Int.tdiv n.available.memory req.memRequest < k
+    · simp [c1, c2] at hcd
+    · simp only [c1, c2, if_false] at hcd
+      cases hcd
+      exact ⟨_, alloc_memory_usage n hw hval k.toNat _ rfl rfl⟩
 
 /-- Nodes with zero (or negative) capacity are not offered by the plugin, and every offered
     node is reported with its positive capacity. -/
